@@ -4,6 +4,8 @@ import (
 	"context"
 	"errors"
 	"log/slog"
+	"runtime"
+	"strconv"
 	"time"
 )
 
@@ -127,6 +129,46 @@ func H_C13_line() {
 	if len(s) >= 2 {
 		vxReach("two-byte symbolic string in a line")
 	}
+}
+
+// the handlers show the caller's file by its last two path elements (directory/file.go); a shorter path is shown whole
+func c13ShortFile(file string) string {
+	n := 0
+	for i := len(file) - 1; i >= 0; i-- {
+		if file[i] == '/' {
+			n++
+			if n == 2 {
+				return file[i+1:]
+			}
+		}
+	}
+	return file
+}
+
+// source enabled: the source token unquotes to exactly file:line of the caller, whatever the file is called
+// (in the engine the pc resolves to each of rtstubs.go's frameFiles in turn; natively to this file)
+func H_C13_source() {
+	vxPoolMode(1)
+	var pcs [1]uintptr
+	runtime.Callers(1, pcs[:])
+	f, _ := runtime.CallersFrames(pcs[:]).Next()
+	w := &c13Rec{}
+	h := NewTextHandler(w, NewOptions(LevelDebug, false, true))
+	msg := vxString(1)
+	r := slog.NewRecord(time.Now(), LevelInfo, msg, pcs[0])
+	r.AddAttrs(slog.Int("k", 1))
+	err := h.Handle(context.Background(), r)
+	vxAssert(err == nil && len(w.writes) == 1, "C13: record did not produce exactly one Write")
+	line := w.writes[0]
+	vxPrint(string(line))
+	toks, ok := c13Tokenize(line)
+	vxAssert(ok, "C13: line with source does not split into key=value tokens")
+	vxAssert(len(toks) == 5, "C13: line with source has the wrong number of tokens")
+	vxAssert(string(toks[2].k) == "source", "C13: source token missing")
+	want := c13ShortFile(f.File) + ":" + strconv.Itoa(f.Line)
+	vxAssert(string(toks[2].v) == want, "C13: source token is not the caller's file:line")
+	vxAssert(string(toks[3].k) == "msg" && string(toks[3].v) == msg && string(toks[4].k) == "k", "C13: tokens after source differ")
+	vxReach("source enabled")
 }
 
 func H_C13_vacuity() {
